@@ -99,7 +99,7 @@ def _cache_put(kind, key, val):
 def _prune_cache(keep=6):
     try:
         ds = [os.path.join(CACHE, d) for d in os.listdir(CACHE)]
-        ds = [d for d in ds if os.path.isdir(d)]
+        ds = [d for d in ds if os.path.isdir(d) and os.path.basename(d) != 'plugin']
         ds.sort(key=os.path.getmtime, reverse=True)
         for d in ds[keep:]:
             shutil.rmtree(d, ignore_errors=True)
